@@ -17,7 +17,7 @@ pub const DEF: PropDef = PropDef {
     id: "C15",
     run,
     oracle,
-    rule: "cases = (cache-preloading calls, measured call) from: F1 hostile headers over short bodies (every count/length field of every version set to 0xffff/0x7fff); F2 buffers packed with n minimal packets per version (also with all 65,536 version numbers in the public allowed set); F3 one packet with n minimal sets/flowsets (empty, one record) under small and 1000-field cached templates; F4 one set with n minimal records; F5 templates with n fields plus matching data; F6 templates with z zero-length fields x r records (z*r <= 2e5); F7 failing records (V9 retry loop); F1d chains of minimal messages whose data (variable-length prefix) or template (fixed width 65534; enterprise, string, octet-array and untyped elements) announces bytes the set does not hold; F9 decode-then-discard; F10 one packet whose n sets redefine (same kind / other kind) or carry data for n distinct ids of a cache that earlier calls filled with 6000 templates (cost must not depend on what is cached); F8 random hostile and conformant histories; sizes up to the 65,535-byte limit. Oracle per measured call: S1 alloc_bytes <= K0 + K1*|buf| + K2*result_size; S2 result_size <= K0 + K3*(|buf| + wire size of the cached templates); S3 (metamorphic, per family) cost(2n) <= 2.5*cost(n) + K0 for alloc_bytes, alloc_calls and result_size at successive doublings up to the limit. S5 (CPU work, counted as instructions executed inside the measured parse_bytes call by valgrind/callgrind on a helper binary - exact, no clock involved; per family at its maximal size n): instructions(n) <= 8 x instructions(n/4) + 3e6 (linear 4x, quadratic 16x); S6 (families F10, a packet of 500 sets): instructions against the 6000-template cache <= 2 x instructions against a cache holding only the 500 ids used + 5e5. K0 = 128 KiB; K1, K2, K3 calibrated once (4x the maximum observed on the unchanged tree over the generated cases that avoid open findings; recorded in the source). A bound that fails only by what the open finding 'zero-length fields are materialised per record' explains (budget computed from the templates in effect and the set sizes) is forgiven with that signature; anything else is a violation. non-trivial = |buf| >= 1 KiB, or a header field announces >= 16x more records/bytes than present, or the case is an S3 doubling pair; distinct by digest.",
+    rule: "cases = (cache-preloading calls, measured call) from: F1 hostile headers over short bodies (every count/length field of every version set to 0xffff/0x7fff); F2 buffers packed with n minimal packets per version (also with all 65,536 version numbers in the public allowed set); F3 one packet with n minimal sets/flowsets (empty, one record) under small and 1000-field cached templates; F4 one set with n minimal records; F5 templates with n fields plus matching data; F6 templates with z zero-length fields x r records (z*r <= 2e5); F7 failing records (V9 retry loop); F1d chains of minimal messages whose data (variable-length prefix) or template (fixed width 65534; enterprise, string, octet-array and untyped elements) announces bytes the set does not hold; F9 decode-then-discard; F10 one packet whose n sets redefine (same kind / other kind) or carry data for n distinct ids of a cache that earlier calls filled with 6000 templates (cost must not depend on what is cached); F8 random hostile and conformant histories; sizes up to the 65,535-byte limit. Oracle per measured call: S1 alloc_bytes <= K0 + K1*|buf| + K2*result_size; S2 result_size <= K0 + K3*(|buf| + wire size of the cached templates); S3 (metamorphic, per family) cost(2n) <= 2.5*cost(n) + K0 for alloc_bytes, alloc_calls and result_size at successive doublings up to the limit. S5 (CPU work, counted as instructions executed inside the measured parse_bytes call by valgrind/callgrind on a helper binary - exact, no clock involved; per family at its maximal size n): instructions(n) <= 8 x instructions(n/4) + 3e6 (linear 4x, quadratic 16x); S7 (families F11: the same small packet after n and after n/4 earlier calls - distinct unknown template ids, distinct source ids / observation domains, one template redefined over and over; n = 60,000): instructions(after n) <= 1.5 x instructions(after n/4) + 3000 (measured: identical counts), and S1 holds for every one of the n calls; S6 (families F10, a packet of 500 sets): instructions against the 6000-template cache <= 2 x instructions against a cache holding only the 500 ids used + 5e5. K0 = 128 KiB; K1, K2, K3 calibrated once (4x the maximum observed on the unchanged tree over the generated cases that avoid open findings; recorded in the source). A bound that fails only by what the open finding 'zero-length fields are materialised per record' explains (budget computed from the templates in effect and the set sizes) is forgiven with that signature; anything else is a violation. non-trivial = |buf| >= 1 KiB, or a header field announces >= 16x more records/bytes than present, or the case is an S3 doubling pair; distinct by digest.",
     assumptions: &[
         "memory cost is allocator traffic on the calling thread (deterministic); CPU cost is the instruction count of the measured call under callgrind (repeatable to within a few percent; skipped, and reported as skipped in the evidence, if valgrind is not installed); clocks are never an oracle",
         "constants K1..K3 are calibrated, not derived; the targeted defects exceed them by orders of magnitude",
@@ -186,6 +186,7 @@ pub static S5_PAIRS: AtomicU64 = AtomicU64::new(0);
 pub static S5_MAX_RATIO_X100: AtomicU64 = AtomicU64::new(0);
 pub static S6_MAX_RATIO_X100: AtomicU64 = AtomicU64::new(0);
 pub static S5_SKIPPED: AtomicU64 = AtomicU64::new(0);
+pub static S7_MAX_RATIO_X100: AtomicU64 = AtomicU64::new(0);
 
 fn valgrind_available() -> bool {
     static V: std::sync::OnceLock<bool> = std::sync::OnceLock::new();
@@ -289,6 +290,17 @@ fn oracle_cg(case: &Case) -> Outcome {
                 n,
                 small,
                 big
+            ));
+        }
+    }
+    if name.starts_with("F11-") {
+        // S7: the measured call comes after n resp. n/4 earlier calls and is the same packet
+        S7_MAX_RATIO_X100.fetch_max(big * 100 / small.max(1), Ordering::Relaxed);
+        o.label("S7-call-cost-vs-history-length");
+        if big > small + small / 2 + 3_000 {
+            return Outcome::violation(format!(
+                "S7 violated for family {}: the same small packet costs {} instructions after {} earlier calls and {} after {}",
+                name, small, n / 4, big, n
             ));
         }
     }
@@ -509,6 +521,41 @@ fn family_f10(name: &str, n: usize) -> Option<(Vec<Vec<u8>>, Vec<u8>)> {
 pub fn family(name: &str, n: usize) -> Option<(Vec<Vec<u8>>, Vec<u8>)> {
     if name.starts_with("F10-") || name.starts_with("F10s-") {
         return family_f10(name, n);
+    }
+    if let Some(rest) = name.strip_prefix("F11-history-") {
+        // n earlier calls of one small packet each, then one more of the same kind: what a
+        // call costs must not depend on how long the parser has been running
+        let one = |i: usize| -> Vec<u8> {
+            let id = 256 + (i % 65000) as u16;
+            match rest {
+                "distinct-unknown-ids-v9" => v9_pkt(1, &data_set(id, 4, 1)),
+                "distinct-unknown-ids-ipfix" => ipfix_msg(&data_set(id, 4, 1)),
+                "distinct-source-ids-v9" => {
+                    let mut w = W::default();
+                    enc_v9_header(&mut w, 0, &[1, 2, i as u32, 1000 + i as u32]);
+                    w.0
+                }
+                "distinct-observation-domains-ipfix" => {
+                    let mut w = W::default();
+                    enc_ipfix_header(&mut w, 16, &[1, i as u32, 1000 + i as u32]);
+                    w.0
+                }
+                "one-template-redefined-v9" => {
+                    let mut b = tpl_set_padded(Proto::V9, 300, &plain(vec![(1, if i % 2 == 0 { 4 } else { 8 })]));
+                    b.extend(data_set(300, if i % 2 == 0 { 4 } else { 8 }, 3));
+                    v9_pkt(2, &b)
+                }
+                _ => {
+                    let mut b = tpl_set_padded(Proto::Ipfix, 300, &plain(vec![(1, if i % 2 == 0 { 4 } else { 8 })]));
+                    b.extend(data_set(300, if i % 2 == 0 { 4 } else { 8 }, 3));
+                    ipfix_msg(&b)
+                }
+            }
+        };
+        if !["distinct-unknown-ids-v9", "distinct-unknown-ids-ipfix", "distinct-source-ids-v9", "distinct-observation-domains-ipfix", "one-template-redefined-v9", "one-template-redefined-ipfix"].contains(&rest) {
+            return None;
+        }
+        return Some(((0..n).map(one).collect(), one(n)));
     }
     let wide = plain((0..1000).map(|i| ((i % 60 + 1) as u16, 1)).collect());
     let small = plain(vec![(1, 4)]);
@@ -731,6 +778,12 @@ pub const FAMILIES: &[(&str, usize, usize)] = &[
     ("F10-ipfix-plain-cached-redefined", 16, 3700),
     ("F10-ipfix-plain-cached-data", 8, 6000),
     ("F10-ipfix-options-cached-data", 12, 5000),
+    ("F11-history-distinct-unknown-ids-v9", 1, 60000),
+    ("F11-history-distinct-unknown-ids-ipfix", 1, 60000),
+    ("F11-history-distinct-source-ids-v9", 1, 60000),
+    ("F11-history-distinct-observation-domains-ipfix", 1, 60000),
+    ("F11-history-one-template-redefined-v9", 1, 60000),
+    ("F11-history-one-template-redefined-ipfix", 1, 60000),
     ("F6-v9-zero-length-fields", 1, 1000),
     ("F6-ipfix-zero-length-fields", 1, 1000),
 ];
@@ -911,6 +964,7 @@ pub fn run(ctx: &Ctx) {
             "family pairs measured with callgrind": S5_PAIRS.load(Ordering::Relaxed),
             "max instructions(n)/instructions(n/4)": S5_MAX_RATIO_X100.load(Ordering::Relaxed) as f64 / 100.0,
             "max instructions(large cache)/instructions(small cache)": S6_MAX_RATIO_X100.load(Ordering::Relaxed) as f64 / 100.0,
+            "max instructions(call after n earlier calls)/instructions(after n/4)": S7_MAX_RATIO_X100.load(Ordering::Relaxed) as f64 / 100.0,
             "pairs skipped because valgrind is not available or a run failed": S5_SKIPPED.load(Ordering::Relaxed),
         }),
     );
